@@ -1,6 +1,6 @@
 from typing import List, Tuple, TYPE_CHECKING
 
-from pyteal.types import TealType
+from pyteal.types import TealType, require_type
 from pyteal.errors import TealInternalError, TealCompileError
 from pyteal.ir import TealOp, Op, TealSimpleBlock
 from pyteal.ast.expr import Expr
@@ -108,6 +108,8 @@ class WideRatio(Expr):
             raise TealInternalError(
                 "There is only a single factor in the numerator and denominator. Use basic division instead."
             )
+        for factor in [*numeratorFactors, *denominatorFactors]:
+            require_type(factor, TealType.uint64)
         self.numeratorFactors = numeratorFactors
         self.denominatorFactors = denominatorFactors
 
